@@ -111,11 +111,15 @@ static bool AppendToList(an<ConfigItemRef> target, an<ConfigList> list) {
       return false;
     }
     // convert empty node (usually map with only compiler directives) to list;
-    // refer to test case RimeConfigMergeTest.CreateListWithInplacePatch
-    existing_list = target->AsList();
-  }
-  if (list->empty())
+    // refer to test case RimeConfigMergeTest.CreateListWithInplacePatch.
+    // the list is written to the target once, below: a second write through
+    // the same copy-on-write reference resolves list-index keys such as
+    // `@before last` again, against the list already changed by the first
+    // write, and may end up in a shared node
+    existing_list = New<ConfigList>();
+  } else if (list->empty()) {
     return true;
+  }
   auto copy = New<ConfigList>(*existing_list);
   for (ConfigList::Iterator iter = list->begin(); iter != list->end(); ++iter) {
     if (!copy->Append(*iter))
